@@ -35,7 +35,6 @@ def run(ctx, replay=None):
         n = 40 if not ctx.thorough() else 400
         setups = [replay['case']] if replay and replay.get('case') else vc.corpus_cases('C08') + [kc.gen_setup(rng, nmax=30) for _ in range(n)]
         for s in setups:
-            s['sparse'] = False
             if s['model'] not in CND:
                 s['model'] = rng.choice(CND)
                 s['tags']['model'] = s['model']
@@ -43,6 +42,9 @@ def run(ctx, replay=None):
                     s['vkw'].pop('fit_shape')
                 if s['model'] in ('stable', 'matern') and s['vkw'].get('fit_method') == 'manual':
                     s['vkw']['fit_shape'] = 1.0
+            # truncated (sparse) distance handling only where it is defined: Euclidean metric, bounded-range model
+            s['sparse'] = bool(s.get('sparse')) and s['metric'] == 'euclidean' and s['model'] in ('spherical', 'cubic') and not s.get('mkw')
+            ctx.count('sparse_option', s['sparse'])
             r = kc.check_setup(ctx, model, s, oracle=True, prop='C08')
             if r is None:
                 continue
@@ -93,14 +95,14 @@ def run(ctx, replay=None):
                 cmp(ctx, s, 'adding a constant to the observations does not add it to every estimate', z2[est], z[est] + c)
                 cmp(ctx, s, 'adding a constant to the observations changes the kriging variances', sg2[est], sg[est])
                 # scale k, sill and nugget * k^2
-                k = float(rng.choice([2.0, -3.0, 0.5]))
+                k = float(rng.choice([2.0, -3.0, 0.5, 1e-5, 4096.0]))       # incl. a change of unit by several orders of magnitude
                 vk = dict(s['vkw'])
                 vk['fit_sill'] = vk['fit_sill'] * k * k
                 if 'fit_nugget' in vk:
                     vk['fit_nugget'] = vk['fit_nugget'] * k * k
                 z3, sg3, _, _ = krige(s, values=v * k, vkw=vk)
-                cmp(ctx, s, 'scaling observations by k (sill, nugget by k^2) does not scale the estimates by k', z3[est], z[est] * k)
-                cmp(ctx, s, 'scaling observations by k (sill, nugget by k^2) does not scale the variances by k^2', sg3[est], sg[est] * k * k, 1e-6, 1e-7 * max(1.0, sill * k * k))
+                cmp(ctx, s, 'scaling observations by k (sill, nugget by k^2) does not scale the estimates by k', z3[est], z[est] * k, 1e-6, 1e-7 * abs(k))
+                cmp(ctx, s, 'scaling observations by k (sill, nugget by k^2) does not scale the variances by k^2', sg3[est], sg[est] * k * k, 1e-6, 1e-7 * max(1.0, sill) * k * k)
                 # constant field
                 c0 = float(rng.choice([3.0, -7.25]))
                 z4, sg4, _, _ = krige(s, values=np.full(len(v), c0))
